@@ -6,7 +6,7 @@ use lucid_suggest_core::lang::CharClass;
 use lucid_suggest_core::tokenization::{WordShape, TextRef, Word};
 use lucid_suggest_core::verif_hooks::{self as vh, Hit, WordMatch, ScoreType};
 use crate::{nd, build};
-use crate::txt::{Txt, Mode, any_txt};
+use crate::txt::{Txt, Mode, any_txt, any_txt_stems};
 
 /// Structural contract P_tm of the match vectors (what highlighting and scoring rely on).
 pub fn check_structure<const N: usize, const W: usize, const QN: usize, const QW: usize>(title: &Txt<N, W>, query: &Txt<QN, QW>, rm: &[WordMatch], qm: &[WordMatch]) {
@@ -50,11 +50,11 @@ pub fn check_span_bound<const QN: usize, const QW: usize>(query: &Txt<QN, QW>, r
 /// Title: N characters, W words at `rspans`; query: QN characters, QW words at `qspans`, last
 /// query word finished iff `qfin`; `cap` = initial capacity of the distance matrix (fits the shape).
 pub fn score_case<const N: usize, const W: usize, const QN: usize, const QW: usize>(
-    rspans: [(usize, usize); W], qspans: [(usize, usize); QW], qfin: bool, cap: usize,
+    rspans: [(usize, usize); W], rstems: [usize; W], qspans: [(usize, usize); QW], qstems: [usize; QW], qfin: bool, cap: usize,
 ) {
     unsafe { vh::DAMLEV_CAPACITY = cap; }
-    let title = any_txt::<N, W>(rspans, true, Mode::Full);
-    let query = any_txt::<QN, QW>(qspans, qfin, Mode::Full);
+    let title = any_txt_stems::<N, W>(rspans, rstems, true);
+    let query = any_txt_stems::<QN, QW>(qspans, qstems, qfin);
     let rating = nd::any_u32() as usize;
     nd::assume(rating < (1usize << 31));
     let qref = query.text();
@@ -74,6 +74,50 @@ pub fn score_case<const N: usize, const W: usize, const QN: usize, const QW: usi
     std::mem::forget(hit);
 }
 
+fn same_matches(a: &[WordMatch], b: &[WordMatch]) -> bool {
+    if a.len() != b.len() { return false; }
+    let mut i = 0;
+    while i < a.len() {
+        let (x, y) = (&a[i], &b[i]);
+        if x.offset != y.offset || x.slice != y.slice || x.subslice != y.subslice || x.typos != y.typos || x.func != y.func || x.fin != y.fin { return false; }
+        i += 1;
+    }
+    true
+}
+
+fn same_scores(a: &Hit, b: &Hit) -> bool {
+    a.scores[ScoreType::Chars] == b.scores[ScoreType::Chars] && a.scores[ScoreType::Words] == b.scores[ScoreType::Words]
+        && a.scores[ScoreType::Tails] == b.scores[ScoreType::Tails] && a.scores[ScoreType::Trans] == b.scores[ScoreType::Trans]
+        && a.scores[ScoreType::Fin] == b.scores[ScoreType::Fin] && a.scores[ScoreType::Offset] == b.scores[ScoreType::Offset]
+        && a.scores[ScoreType::Rating] == b.scores[ScoreType::Rating] && a.scores[ScoreType::WordLen] == b.scores[ScoreType::WordLen]
+        && a.scores[ScoreType::CharLen] == b.scores[ScoreType::CharLen]
+}
+
+/// C06 / C10: a record's verdict does not depend on what was scored before. Record A is scored
+/// first thing (fresh scratch state), then ANOTHER record B against ANOTHER query, then A again.
+pub fn local_case<const N: usize, const W: usize, const QN: usize, const QW: usize>(
+    rspans: [(usize, usize); W], rstems: [usize; W], qspans: [(usize, usize); QW], qstems: [usize; QW], qfin: bool, cap: usize,
+) {
+    unsafe { vh::DAMLEV_CAPACITY = cap; }
+    let a = any_txt_stems::<N, W>(rspans, rstems, true);
+    let qa = any_txt_stems::<QN, QW>(qspans, qstems, qfin);
+    let b = any_txt_stems::<N, W>(rspans, rstems, true);
+    let qb = any_txt_stems::<QN, QW>(qspans, qstems, qfin);
+    let (qa_ref, qb_ref) = (qa.text(), qb.text());
+    let mut h1 = Hit { id: 1, title: a.text(), rating: 5, rmatches: Vec::with_capacity(1), qmatches: Vec::with_capacity(1), scores: Default::default() };
+    vh::score(&qa_ref, &mut h1);
+    let mut hb = Hit { id: 2, title: b.text(), rating: 6, rmatches: Vec::with_capacity(1), qmatches: Vec::with_capacity(1), scores: Default::default() };
+    vh::score(&qb_ref, &mut hb);
+    let mut h2 = Hit { id: 1, title: a.text(), rating: 5, rmatches: Vec::with_capacity(1), qmatches: Vec::with_capacity(1), scores: Default::default() };
+    vh::score(&qa_ref, &mut h2);
+    assert!(same_matches(&h1.rmatches, &h2.rmatches) && same_matches(&h1.qmatches, &h2.qmatches),
+            "C06/C10: a record's matches depend on what was scored before");
+    assert!(same_scores(&h1, &h2), "C06/C10: a record's scores depend on what was scored before");
+    assert!(vh::hit_matches(&qa_ref, &h1) == vh::hit_matches(&qa_ref, &h2), "C06/C10: filter verdict depends on history");
+    crate::witness!(h1.rmatches.len() > 0 && hb.rmatches.len() == 0, "A matches while B does not");
+    std::mem::forget(h1); std::mem::forget(hb); std::mem::forget(h2);
+}
+
 macro_rules! cases {
     ($($name:ident = $body:expr;)*) => {
         $(
@@ -86,13 +130,21 @@ macro_rules! cases {
 }
 
 cases! {
-    tm_r1_q1 = score_case::<1, 1, 1, 1>([(0, 1)], [(0, 1)], true, 3);
-    tm_r2_q2 = score_case::<2, 1, 2, 1>([(0, 2)], [(0, 2)], true, 4);
-    tm_r2_q2u = score_case::<2, 1, 2, 1>([(0, 2)], [(0, 2)], false, 4);
-    tm_r3_q3 = score_case::<3, 1, 3, 1>([(0, 3)], [(0, 3)], true, 4);
-    tm_r12_q3 = score_case::<4, 2, 3, 1>([(0, 1), (2, 4)], [(0, 3)], true, 5);
-    tm_r3_q12 = score_case::<3, 1, 4, 2>([(0, 3)], [(0, 1), (2, 4)], true, 5);
-    tm_r11_q11 = score_case::<3, 2, 3, 2>([(0, 1), (2, 3)], [(0, 1), (2, 3)], true, 4);
-    tm_r2_q0 = score_case::<2, 1, 1, 0>([(0, 2)], [], true, 3);
-    tm_r0_q2 = score_case::<1, 0, 2, 1>([], [(0, 2)], true, 3);
+    // score_case::<N, W, QN, QW>(title spans, title stems, query spans, query stems, query finished, matrix capacity)
+    tm_r1_q1 = score_case::<1, 1, 1, 1>([(0, 1)], [1], [(0, 1)], [1], true, 3);
+    tm_r2_q2 = score_case::<2, 1, 2, 1>([(0, 2)], [2], [(0, 2)], [2], true, 4);
+    tm_r2_q2u = score_case::<2, 1, 2, 1>([(0, 2)], [2], [(0, 2)], [1], false, 4);
+    tm_r3_q3 = score_case::<3, 1, 3, 1>([(0, 3)], [3], [(0, 3)], [3], true, 4);
+    tm_r3_q3u = score_case::<3, 1, 3, 1>([(0, 3)], [2], [(0, 3)], [2], false, 4);
+    tm_r12_q3 = score_case::<4, 2, 3, 1>([(0, 1), (2, 4)], [1, 2], [(0, 3)], [3], true, 5);
+    tm_r21_q3 = score_case::<4, 2, 3, 1>([(0, 2), (3, 4)], [2, 1], [(0, 3)], [3], true, 5);
+    tm_r3_q12 = score_case::<3, 1, 4, 2>([(0, 3)], [3], [(0, 1), (2, 4)], [1, 2], true, 5);
+    tm_r11_q11 = score_case::<3, 2, 3, 2>([(0, 1), (2, 3)], [1, 1], [(0, 1), (2, 3)], [1, 1], true, 4);
+    tm_r11_q1 = score_case::<3, 2, 1, 1>([(0, 1), (2, 3)], [1, 1], [(0, 1)], [1], false, 4);
+    tm_r2_q0 = score_case::<2, 1, 1, 0>([(0, 2)], [2], [], [], true, 3);
+    tm_r0_q2 = score_case::<1, 0, 2, 1>([], [], [(0, 2)], [2], true, 3);
+    tm_local_r1_q1 = local_case::<1, 1, 1, 1>([(0, 1)], [1], [(0, 1)], [1], true, 3);
+    tm_local_r2_q2 = local_case::<2, 1, 2, 1>([(0, 2)], [2], [(0, 2)], [2], true, 4);
+    tm_r22_q4 = score_case::<5, 2, 4, 1>([(0, 2), (3, 5)], [2, 2], [(0, 4)], [4], true, 6);
+    tm_r13_q4 = score_case::<5, 2, 4, 1>([(0, 1), (2, 5)], [1, 3], [(0, 4)], [4], true, 6);
 }
